@@ -20,10 +20,10 @@ def _pre(nmax, q=False):
 
 def spelling_jobs(tier):
     q = tier == "quick"
-    nmax = 2 if q else 3
+    nmax = 2
     out = []
     for shape in range(4):
-        for spell in ((21,) if q else (63, 21, 42, 7)):
+        for spell in ((21,) if q else (63, 21, 42)):
             for lets in (False, True):
                 out.append(CH(name=f"c09_spelling_s{shape}_sp{spell}_{'let' if lets else 'lit'}", base="c09_spelling", func=f"{H}:c09_spelling",
                               params=[("n1", "int"), ("n2", "int"), ("n3", "int")], pre=_pre(nmax, q), fixed={"shape": shape, "spell": spell, "lets": lets},
@@ -35,15 +35,15 @@ def spelling_jobs(tier):
 
 def jobs(tier):
     q = tier == "quick"
-    nmax = 2 if q else 3
+    nmax = 2
     out = []
     for shape in range(4):
-        for spell in ((21,) if q else (0, 63, 21, 42)):
+        for spell in ((21,) if q else (0, 63, 21)):
             for lets in (False, True):
                 out.append(CH(name=f"c08_outputs_s{shape}_sp{spell}_{'let' if lets else 'lit'}", base="c08_outputs", func=f"{H}:c08_outputs",
-                              params=[("n1", "int"), ("n2", "int"), ("n3", "int"), ("o0", "int")] + ([] if q else [("o1", "int"), ("o2", "int")]),
-                              pre=_pre(nmax, q) + (["o0 == 3"] if q else ["0 <= o0 <= 3", "0 <= o1 <= 3", "0 <= o2 <= 3"]),
-                              fixed=dict({"shape": shape, "spell": spell, "lets": lets, "ov": False}, **({"o1": 1, "o2": 2} if q else {})),
+                              params=[("n1", "int"), ("n2", "int"), ("n3", "int"), ("o0", "int")] + [],
+                              pre=_pre(nmax, q) + (["o0 == 3"] if q else ["o0 == 0 or o0 == 3"]),
+                              fixed={"shape": shape, "spell": spell, "lets": lets, "ov": False, "o1": 1, "o2": 2},
                               timeout=400 if q else 1500, functions=FUNCS,
                               note="parse_jaqal_output_list: one readout per visit of the unrolled program, in order, attributed by flat index; "
                                    "as_int/as_str as supplied; per-subcircuit readouts and relative frequencies count its own readouts"))
@@ -53,9 +53,9 @@ def jobs(tier):
                                   fixed={"shape": shape, "spell": spell, "lets": True, "ov": True, "o0": 1, "o1": 2, "o2": 0}, timeout=400 if q else 1500, functions=FUNCS + ["fill_in_let"],
                                   note="loop counts are lets declared with other values and overridden through fill_in_let: visits follow the overriding counts"))
                 out.append(CH(name=f"c08_emulate_s{shape}_sp{spell}_{'let' if lets else 'lit'}", base="c08_emulate", func=f"{H}:c08_emulate",
-                              params=[("n1", "int"), ("n2", "int"), ("n3", "int"), ("p0", "int")] + ([] if q else [("p1", "int")]),
-                              pre=_pre(nmax, q) + (["p0 == 2"] if q else ["0 <= p0 <= 3", "0 <= p1 <= 3"]),
-                              fixed=dict({"shape": shape, "spell": spell, "lets": lets}, **({"p1": 3} if q else {})),
+                              params=[("n1", "int"), ("n2", "int"), ("n3", "int"), ("p0", "int")] + [],
+                              pre=_pre(nmax, q) + (["p0 == 2"] if q else ["p0 == 1 or p0 == 2"]),
+                              fixed={"shape": shape, "spell": spell, "lets": lets, "p1": 3},
                               timeout=400 if q else 1500, functions=FUNCS,
                               note="run_jaqal_circuit with numpy.random.choice stubbed: terminates within fuel, one readout per visit in order, every sample has "
                                    "non-zero probability in the distribution of the subcircuit it is attributed to"))
